@@ -5,4 +5,5 @@ From Verif Require Import Model.PublicView.
 Extraction Language OCaml.
 Extraction "../ocaml/c16_model.ml" init step exports key_codes out_taint kcomp
   wk_init wstep wexports wk_codes
-  wal_init wal_step wal_exports wal_returns wal_mains.
+  wal_init wal_step wal_exports wal_returns wal_mains
+  xstep xexports wallet_public_master_args no_private_request.
